@@ -90,6 +90,17 @@ def cases(tier, seed):
         for k in range(lo + (seed % stride), hi + 1, stride):
             for width in CORNER_WIDTHS:
                 yield dict(kind="corner", num=k, den=den, width=width)
+    # bounds NEXT TO a seam, not on it (round 8, seed C17-16: an approximate comparison with 360 snapping the east bound): E or W within
+    # 2e-3 ... 1e-9 degrees of 0 / 180 / 360 / -180, the other bound anywhere
+    for seam in (0.0, 180.0, 360.0, -180.0):
+        for delta in (2e-3, 1e-3, 1e-5, 1e-9, -2e-3, -1e-3, -1e-5, -1e-9):
+            b_ = seam + delta
+            if not -180 <= b_ <= 360:
+                continue
+            for other in (-170.5, -90.25, -10.0, 10.0, 45.5, 120.5, 179.0, 181.0, 270.25, 350.0):
+                for W_, E_ in ((other, b_), (b_, other)):
+                    if -180 <= W_ <= 360 and -180 <= E_ <= 360 and W_ != E_:
+                        yield dict(kind="corner", W=W_, E=E_)
     for bad in ("w_lt_-180", "e_gt_360", "w_gt_360", "e_lt_-180", "span_gt_360", "s_lt_-90", "n_gt_90",
                 "lon_gt_360", "lon_lt_-180", "lat_gt_90", "lat_lt_-90", "w_gt_360_e_small", "e_lt_-180_w_big", "w_lt_-180_e_big",
                 "e_gt_360_w_small", "s_gt_90_n_below", "n_lt_-90_s_above"):
@@ -113,8 +124,12 @@ def _lons(lat_name, tier_vals):
 
 
 def _corner(case, rec, vd):
-    W = case["num"] / case["den"]
-    E = W + case["width"]
+    if "W" in case:
+        W, E = case["W"], case["E"]
+        case = dict(case, width=float((F(E) - F(W)) % 360))
+    else:
+        W = case["num"] / case["den"]
+        E = W + case["width"]
     if E > 360 or E % 180 == 0 or W % 180 == 0:
         rec.trivial = True
         rec.cls("corner:out-of-domain")
@@ -124,7 +139,7 @@ def _corner(case, rec, vd):
         rec.trivial = True
         rec.cls("non-representable")
         return rec.skip("non-representable arc (outside the quantifier)")
-    width = F(E) - F(W)
+    width = (F(E) - F(W)) % 360
     mid = W + case["width"] / 2
     out_e = E + min(1.0, (360 - case["width"]) / 2)
     out_w = W - min(1.0, (360 - case["width"]) / 2)
@@ -146,6 +161,15 @@ def _corner(case, rec, vd):
     rec.check(near(Wp - F(W)) <= ULP360 and near(Ep - F(E)) <= ULP360, "returned bounds %r not congruent to %r modulo 360 (beyond round-off)" % (reg_out[:2], region[:2]))
     rec.check(abs((Ep - Wp) - width) <= 2 * ULP360, "width %r of the returned region differs from the eastward angle %r" % (float(Ep - Wp), float(width)))
     rec.check(reg_out[2:] == [-10.0, 10.0], "latitudes changed")
+    # longitudes of a narrower dtype than the latitudes (integer, float32): the latitudes of the points come back untouched (seed C17-15)
+    lat_f = np.array([-9.7, 0.3, 5.55, 9.999, -0.125])
+    for lon_n in (np.array([0, 45, 90, 135, 180], dtype=np.int64), np.array([0.5, 45.25, 90.0, 135.75, 180.0], dtype=np.float32)):
+        got_n = call(rec, vd.longitude_continuity, (lon_n, lat_f.copy()), region)
+        if raised(got_n):
+            rec.check(False, "longitude_continuity raised %r for %s longitudes" % (got_n, lon_n.dtype))
+        else:
+            rec.check(np.array_equal(np.asarray(got_n[0][1], dtype=float), lat_f), "point latitudes changed when the longitudes are %s: %s" % (lon_n.dtype, np.asarray(got_n[0][1]).tolist()))
+            rec.check(all(near(F(float(o)) - F(float(i))) <= ULP360 for i, o in zip(lon_n.tolist(), np.asarray(got_n[0][0], dtype=float).tolist())), "%s longitudes not congruent to the inputs" % lon_n.dtype)
     rec.check(all(near(F(float(o)) - F(float(i))) <= ULP360 for i, o in zip(lon.tolist(), lon_out.tolist())), "longitudes not congruent to the inputs modulo 360")
     ins = call(rec, vd.inside, (lon_out, np.asarray(coords_out[1], dtype=float)), reg_out)
     if raised(ins):
